@@ -1,11 +1,15 @@
 import MaestroVerif.Lemmas.ExecDemo
+import MaestroVerif.Lemmas.ExecLive
 
 /-!
 # C05 — The study terminates and its final verdict and exit code are truthful
 
 This file: the decision logic of the verdict (`_check_study_completion`) and
-the exit codes (over the enum values regenerated from the source).  The
-liveness half (termination for every fair continuation) is in `C05Live.lean`.
+the exit codes (over the enum values regenerated from the source), and the
+liveness half: under *decisive* polls (the scheduler answers every tracked job
+with FINISHED / FAILED / UNKNOWN / CANCELLED) every poll makes progress and a
+final verdict is reached within `2 (n + 1) + 1` polls, from every reachable
+state, whatever the submissions do (`Lemmas/ExecLive.lean`).
 -/
 namespace MaestroVerif.C05
 open MaestroVerif.Exec MaestroVerif.Gen
@@ -138,5 +142,48 @@ theorem C05_verdict_running (cfg : Cfg) (g : G) :
 example : verdict demoCfg (run demoCfg demoOps) = .CANCELLED ∧
     exitCode (verdict demoCfg (run demoCfg demoOps)) = 3 := by
   rw [demo_state.2.2.2.2.2]; decide
+
+
+/-! ## liveness -/
+
+/-- **Progress**: from any reachable state, a poll in which the scheduler answers
+every tracked job for good (FINISHED / FAILED / UNKNOWN / CANCELLED; submissions
+may succeed or fail as they like) ends the study, or resolves a step that was
+unresolved, or — when nothing was tracked — leaves something tracked.  There is
+no state in which the conductor waits with nothing to wait for. -/
+theorem C05_progress {cfg : Cfg} (wf : WFCfg' cfg) (ha : Dag.Acyclic cfg.dag) {g : G}
+    (hr : Reachable cfg g) {p : PollIn} (hd : Decisive g p) :
+    verdict cfg (poll cfg g p).1 ≠ .RUNNING ∨
+    unresolved cfg (poll cfg g p).1 < unresolved cfg g ∨
+    (unresolved cfg (poll cfg g p).1 ≤ unresolved cfg g ∧ g.inProgress = [] ∧
+      (poll cfg g p).1.inProgress ≠ []) :=
+  decisive_progress wf ha hr hd
+
+theorem unresolved_le_n (cfg : Cfg) (g : G) : unresolved cfg g ≤ cfg.n + 1 := by
+  unfold unresolved
+  have := List.length_filter_le (fun k => !resolvedB g k) (List.range (cfg.n + 1))
+  simpa using this
+
+/-- **Termination**: from any reachable state (any history of polls, lost
+answers, restarts, hardware failures, failed submissions, cancel requests), every
+run of more than `2 (n + 1) + 1` decisive polls reaches a verdict other than
+RUNNING — at which point the conductor returns it and exits with its value. -/
+theorem C05_terminates {cfg : Cfg} (wf : WFCfg' cfg) (ha : Dag.Acyclic cfg.dag) {g : G}
+    (hr : Reachable cfg g) (ps : List PollIn) (hrun : DecisiveRun cfg g ps)
+    (hlen : 2 * (cfg.n + 1) + 1 < ps.length) :
+    ∃ k, k < ps.length ∧ verdict cfg (runPolls cfg g (ps.take (k + 1))) ≠ .RUNNING := by
+  apply decisive_terminates wf ha (2 * (cfg.n + 1) + 1) g hr _ ps hrun hlen
+  have := unresolved_le_n cfg g
+  have : idle g ≤ 1 := by unfold idle; split <;> omega
+  omega
+
+/-- the premises are satisfiable: the demo configuration is acyclic, its history
+is reachable, and a decisive continuation ends it -/
+example : Dag.Acyclic demoCfg.dag :=
+  (C14.C14_detect_exact demoCfg.dag demo_wf.toWFCfg.dagwf).1.mp (by decide +kernel)
+
+example : verdict demoCfg (runPolls demoCfg (run demoCfg [.poll ⟨.OK, []⟩])
+    [⟨.OK, [(1, some .FINISHED)]⟩, ⟨.OK, [(2, some .FINISHED), (3, some .FAILED)]⟩]) = .FAILURE := by
+  decide +kernel
 
 end MaestroVerif.C05
